@@ -191,7 +191,7 @@ pub fn c04(args: &Args) -> i32 {
     let b = Bounds { quick: run.quick() };
     run.set_rule("(a) every program of F1-F6 (quick: F2,F3,F4,F5-union,F6-union; thorough: all) with <= K non-query clauses: ALL permutations of the non-query clauses (query clause last) and every single-clause duplication (adjacent / at end / query clause) x all small EDBs; each variant's answer must equal the original order's answer and R1. (b) all ordered pairs and triples over a pool of programs (complete constant-bound closure sub-family + shortest program of each family + programs redefining the same IDB names) executed on ONE reused IQLEngine: the last program's answer must equal a fresh engine's, and (c) the engine's stored base facts (as multisets) must be identical before and after every execution. non-trivial = distinct (program variant, EDB) / (sequence, EDB) with non-empty reference answer");
     run.assume("values are Int64 only; R1 is the reference for clause-set semantics");
-    let fams: Vec<&str> = vec!["F1", "F2", "F3", "F4", "F5", "F6"];
+    let fams: Vec<&str> = vec!["F1", "F2", "F3", "F4", "F5", "F6", "F8"];
     let progs: Vec<GenProg> = all_families(&b, &fams).into_iter().filter(|g| g.prog.clauses.len() >= 2).collect();
     let max_perm = if run.quick() { 3 } else { 4 };
     let budget = if run.quick() { 10 } else { 60 };
